@@ -19,14 +19,38 @@
    node of the match, c.statement_location = location of s.  In particular NO non-cancellation error escapes
    without a statement context (the alternative `unwrapped e` of the older `lazy_error_ctx_shape` is impossible).
 
-   Left to the correspondence stream (see `partial`): that in lazy mode the cited statement is the one that
-   created the failing thunk / deferred statement (the theorem says: some statement of the right stanza), and the
-   node KIND / source position recorded for the node (the model identifies nodes by index).
+   LAZY, WHICH statement is cited (second half of the file; Proofs/CiteEval.v, CiteStmt.v, CiteExec.v, CiteRun.v).
+   with_context keeps the innermost statement context, and in lazy mode the contexts are added by
+     (a) Stanza::execute_lazy around each TOP-LEVEL statement, and the scan statement around each direct child of an arm
+         (`if`/`for` bodies only update error_context, they add no context);
+     (b) LazyStatement::evaluate around each deferred graph statement (debug info = error_context when it was pushed);
+     (c) LazyStore::evaluate around each thunk (debug info = error_context of the statement that created it);
+     (d) LazyScopedVariables::force around the scope of each pending definition (debug info of the definition), and for
+         two definitions of one variable on one node a context naming both, the earlier definition first.
+   Vocabulary: `origin s e` (CiteEval): e = InContext(Statement [d], e1), d the debug info of a thunk of s whose OWN body
+   returned e1 WITHOUT statement context (`thunk_direct`: so e1 was not raised inside another thunk), or the same for the
+   scope of a pending scoped definition of s (cause inside Context::Other), or the DuplicateVariable pair; `forced e` =
+   origin in some state; `key_sets st k`: the deferred attribute statement st sets the attribute name of key k;
+   `cites_deferred init all e`: e cites a statement st of `all` by its own debug info with an unwrapped cause, or is the
+   DuplicateAttribute pair [debug info of an attribute statement evaluated no later than st that sets the same key; st];
+   `top_cited`/`arm_cited z n m L e`: e = InContext(Statement (loc s', z, n), cause) for s' in L whose own run, with its own
+   location in the error context, returned the cause e1 without statement context (`lfails_directly`) — for arm children
+   inside Context::Other; `arm_stmts s`: the direct children of scan arms nested in s.
+     lazy_deferred_error_cites_own_statement, lazy_eval_phase_error_cites_deferred   (1)
+     lazy_thunk_error_cites_creator, lazy_value_error_cites_creator, lazy_creator_context_wins, lazy_thunk_error_not_plain   (2)
+     lazy_stmt_error_cites_statement, lazy_exec_error_cites_statement   (3)
+     lazy_run_error_cites   (whole run from the initial state: one of the above, no other case)
+     lazy_created_values_cite_statement   (what "creator" means: every thunk, pending scoped definition and deferred
+       statement stored while a statement runs carries the error context of that statement, or — for `if`/`for`/`scan` — of a
+       statement nested in it, whose location the nested block put into error_context; `ctx_stored s d`: d is stored in s)
 
-   RENDERING (second half of this file; model: Model/ErrRender.v, stream C20r): render_pretty_cites,
+   Left to the correspondence stream: the node KIND / source position shown for the node (the model identifies nodes by
+   index) and the statement TEXT of a context (the model keeps locations only).
+
+   RENDERING (last part of this file; model: Model/ErrRender.v, stream C20r): render_pretty_cites,
    render_pretty_shows_lines, render_pretty_shows_stmt, render_pretty_entries, excerpt_missing_source, ... *)
 From TSG Require Import Model.Strict Model.Lazy Proofs.StrictMeta Proofs.ErrorCtx Proofs.Captures Proofs.ErrorCtxValid.
-From TSG Require Import Model.ErrRender Proofs.ParseErr Proofs.ErrRender.
+From TSG Require Import Proofs.CiteEval Proofs.CiteStmt Proofs.CiteExec Proofs.CiteRun.
 
 (* strict: one block execution (stanza st on match m whose full-match node is n) *)
 Theorem strict_error_ctx : forall {rx : Type} t fl cfg glob (regexes : list rx) find call fuel st m s p e n rest,
@@ -212,6 +236,255 @@ Proof.
          (sinit []), (polls0 None).
   split; [vm_compute; reflexivity|]. split; [apply U_base; exact I|]. split; reflexivity.
 Qed.
+
+(* ================================================================ lazy mode: WHICH statement is cited *)
+
+(* (1) a deferred graph statement st (edge / attr / print) fails when it is evaluated: the error is the cancellation,
+   or carries EXACTLY the debug info of st around a cause without statement context, or is the duplicate-attribute
+   conflict [prev; st] — prev first: the debug info recorded in prev_element_debug_info under a key k that st sets
+   (or st itself when it sets one name twice) —, or it cites the creator of a thunk / scoped definition of s that
+   failed directly, and then the context of st is not added at all *)
+Theorem lazy_deferred_error_cites_own_statement : forall t fl call fuel st s p e,
+  call_errors_base call ->
+  eval_lstmt t fl call fuel st s p = Err e ->
+  (exists l, e = ECancelled l) \/
+  (exists e1, e = EInContext (CtxStmts [ls_dbg st]) e1 /\ unwrapped e1) \/
+  (exists k prev, e = EInContext (CtxStmts [prev; ls_dbg st]) EDuplicateAttribute /\ key_sets st k /\
+                  (In (k, prev) (l_prev s) \/ prev = ls_dbg st)) \/
+  origin t fl call s e.
+Proof. intros t fl call fuel st s p e Hc. exact (eval_lstmt_cites t fl call Hc fuel st s p e). Qed.
+
+(* (1) the whole evaluation phase: the cited deferred statement is one of l_edges ++ l_attrs ++ l_prints (the evaluation
+   order); in a conflict the first context is that of an attribute statement evaluated no later that sets the same key
+   (or an entry of the initial prev_element_debug_info).  `unwrapped e` needs a scoped variable left in the Forcing
+   state in s: impossible in a run from the initial state (lazy_run_error_cites) *)
+Theorem lazy_eval_phase_error_cites_deferred : forall t fl call fuel s p e,
+  call_errors_base call ->
+  evaluate_phase t fl call fuel s p = Err e ->
+  (exists l, e = ECancelled l) \/ unwrapped e \/
+  cites_deferred (l_prev s) (l_edges s ++ l_attrs s ++ l_prints s) e \/
+  origin t fl call s e.
+Proof. intros t fl call fuel s p e Hc. exact (evaluate_phase_cites t fl call Hc fuel s p e). Qed.
+
+(* (2) forcing thunk `loc` fails: the error is the cancellation, or the debug info stored with THIS thunk around the error
+   e1 of its own body, which carries no statement context, or the unchanged error of the body, which cites the creator
+   of an inner thunk / scoped definition that failed directly — the creator of the innermost failing value wins *)
+Theorem lazy_thunk_error_cites_creator : forall t fl call fuel loc s p e,
+  call_errors_base call ->
+  force_thunk t fl call fuel loc s p = Err e ->
+  exists fuel' th, fuel = S fuel' /\ nth_error (l_store s) (N.to_nat loc) = Some th /\
+    ((exists l, e = ECancelled l) \/
+     (exists e1, e = EInContext (CtxStmts [th_dbg th]) e1 /\ unwrapped e1 /\ thunk_body t fl call fuel' loc th s p = Err e1) \/
+     (thunk_body t fl call fuel' loc th s p = Err e /\ origin t fl call s e)).
+Proof. intros t fl call fuel loc s p e Hc. exact (force_thunk_cites t fl call Hc fuel loc s p e). Qed.
+
+(* (2) every error of the value evaluator: cancellation, no statement context yet (the caller — deferred statement, thunk
+   or scoped definition — adds its own), or the creator of the thunk / scoped definition that failed directly *)
+Theorem lazy_value_error_cites_creator : forall t fl call fuel lv s p e,
+  call_errors_base call ->
+  eval_lv t fl call fuel lv s p = Err e ->
+  (exists l, e = ECancelled l) \/ unwrapped e \/ origin t fl call s e.
+Proof. intros t fl call fuel lv s p e Hc. exact (eval_lv_cites t fl call Hc fuel lv s p e). Qed.
+
+(* (2) the creator's context is INSIDE whatever triggered the forcing: no enclosing with_context (deferred statement, outer
+   thunk, scoped definition, executing statement) changes an error that cites a creator *)
+Theorem lazy_creator_context_wins : forall t fl call (A : Type) c (m : M lstate A) s0 s p e,
+  m s p = Err e -> origin t fl call s0 e -> ctx_wrap c m s p = Err e.
+Proof. intros t fl call A c m s0 s p e. exact (origin_survives_context t fl call A c m s0 s p e). Qed.
+(* ... and an error without statement context never comes out of a thunk, so `unwrapped e1` above means: not raised
+   inside another thunk *)
+Theorem lazy_thunk_error_not_plain : forall t fl call fuel loc s p e,
+  call_errors_base call -> force_thunk t fl call fuel loc s p = Err e -> ~ unwrapped e.
+Proof. intros t fl call fuel loc s p e Hc. exact (force_thunk_error_not_plain t fl call Hc fuel loc s p e). Qed.
+
+(* (3) one statement s run in a block (stanza location z, node n, match m): its error is the cancellation, carries no
+   statement context yet (raised by s or in its `if`/`for` bodies: the enclosing top-level / arm statement will be
+   cited), comes from forcing, or cites a scan-arm child nested in s that failed directly *)
+Theorem lazy_stmt_error_cites_statement : forall {rx : Type} t fl cfg glob (regexes : list rx) find call z n m fuel le s s0 p0 e,
+  call_errors_base call -> env_zn z n m le ->
+  lexec_stmt t fl cfg glob regexes find call fuel le s s0 p0 = Err e ->
+  (exists l, e = ECancelled l) \/ unwrapped e \/ forced t fl call e \/
+  arm_cited t fl cfg glob regexes find call z n m (arm_stmts s) e.
+Proof.
+  intros rx t fl cfg glob regexes find call z n m fuel le s s0 p0 e Hc He H.
+  exact (lazy_stmt_error_cite t fl cfg glob regexes find call Hc z n m fuel le s He s0 p0 e H).
+Qed.
+
+(* (3) one (stanza, match) block: the error cites a TOP-LEVEL statement of the stanza whose own run returned the cause
+   without statement context — also when the failure happened in an `if`/`for` body nested in it —, or a direct child of
+   a scan arm (cause inside "matching .. with arm .."), or comes from forcing a value *)
+Theorem lazy_exec_error_cites_statement : forall {rx : Type} t fl cfg glob (regexes : list rx) find call fuel st m s p e n rest,
+  call_errors_base call ->
+  nodes_for_capture m (st_full_file_idx st) = n :: rest ->
+  lexec_stanza t fl cfg glob regexes find call fuel st m s p = Err e ->
+  (exists l, e = ECancelled l) \/ forced t fl call e \/
+  top_cited t fl cfg glob regexes find call (st_start st) n m (st_stmts st) e \/
+  arm_cited t fl cfg glob regexes find call (st_start st) n m (flat_map arm_stmts (st_stmts st)) e.
+Proof.
+  intros rx t fl cfg glob regexes find call fuel st m s p e n rest Hc Hn H.
+  exact (lazy_stanza_error_cite t fl cfg glob regexes find call Hc (st_start st) n m fuel st s p e rest eq_refl Hn H).
+Qed.
+
+(* the whole lazy execution from the initial state: the error is the cancellation, cites the creator of a value that
+   failed directly, cites a top-level / scan-arm statement of an executed block, or — after the execution phase ended
+   in s1 — cites a deferred statement of s1 (for a conflict: the earlier attribute statement first) *)
+Theorem lazy_run_error_cites : forall {rx : Type} t fl cfg glob (regexes : list rx) find call fuel ms g0 p e,
+  call_errors_base call ->
+  lexec_file t fl cfg glob regexes find call fuel ms (linit g0) p = Err e ->
+  (exists l, e = ECancelled l) \/ forced t fl call e \/
+  cites_executed t fl cfg glob regexes find call ms e \/
+  exists s1 p1, lexec_blocks t fl cfg glob regexes find call fuel ms (linit g0) p = Ok (tt, s1, p1) /\
+                cites_deferred [] (l_edges s1 ++ l_attrs s1 ++ l_prints s1) e.
+Proof.
+  intros rx t fl cfg glob regexes find call fuel ms g0 p e Hc.
+  exact (lexec_file_init_error_cite t fl cfg glob regexes find call Hc fuel ms g0 p e).
+Qed.
+
+(* ---- concrete failing runs for the theorems above ---- *)
+Definition ex_fl0 : file := {| f_globals := []; f_inherited := []; f_shorthands := []; f_stanzas := [] |}.
+Definition ex_d (line : N) : stmt_ctx := {| sc_stmt := (line, 0); sc_stanza := (0, 0); sc_node := 7 |}.
+(* store: thunk 0 = (f) created by the statement of line 1, thunk 1 = variable 0 created by line 3 *)
+Definition ex_store_state : lstate :=
+  {| l_graph := []; l_locals := [[]];
+     l_store := [{| th_state := TUnforced (LCall [102] []); th_dbg := ex_d 1 |}; {| th_state := TUnforced (LVar 0); th_dbg := ex_d 3 |}];
+     l_scoped := []; l_edges := []; l_attrs := []; l_prints := []; l_params := []; l_prev := [] |}.
+Lemma ex_origin : origin ex_tree ex_fl0 ex_call ex_store_state (EInContext (CtxStmts [ex_d 1]) EUndefinedFunction).
+Proof.
+  eapply (O_thunk _ _ _ _ _ 0 (ex_d 1) EUndefinedFunction); [reflexivity| |reflexivity].
+  split; [apply U_base; exact I|]. eexists 3%nat, _, ex_store_state, (polls0 None).
+  split; [apply same_dbgs_refl|]. split; [reflexivity|]. split; [reflexivity|]. vm_compute. reflexivity.
+Qed.
+
+(* (2) forcing thunk 1 (created on line 3) forces thunk 0 (created on line 1), whose call fails: the error cites line 1,
+   the creator of the innermost failing value; a deferred `print` of line 2 that forces thunk 1 reports the same error *)
+Example c20_lazy_thunk_creator_nonvacuous :
+  let e := EInContext (CtxStmts [ex_d 1]) EUndefinedFunction in
+  call_errors_base ex_call /\
+  force_thunk ex_tree ex_fl0 ex_call 5 1 ex_store_state (polls0 None) = Err e /\
+  force_thunk ex_tree ex_fl0 ex_call 5 0 ex_store_state (polls0 None) = Err e /\
+  thunk_body ex_tree ex_fl0 ex_call 4 0 {| th_state := TUnforced (LCall [102] []); th_dbg := ex_d 1 |} ex_store_state (polls0 None) = Err EUndefinedFunction /\
+  eval_lstmt ex_tree ex_fl0 ex_call 5 (LSPrint [Some (LVar 1)] (ex_d 2)) ex_store_state (polls0 None) = Err e /\
+  origin ex_tree ex_fl0 ex_call ex_store_state e.
+Proof.
+  cbv zeta. split; [exact ex_call_base|]. split; [vm_compute; reflexivity|]. split; [vm_compute; reflexivity|].
+  split; [vm_compute; reflexivity|]. split; [vm_compute; reflexivity|]. exact ex_origin.
+Qed.
+
+(* (1) a deferred `print (f)` of line 2 fails by itself: exactly its own debug info; and `attr (n) k = 2` of line 2 after
+   `attr (n) k = 1` of line 1: the pair, line 1 first, recorded under the key (node 0, k) that line 2 sets *)
+Example c20_lazy_deferred_own_nonvacuous :
+  let k := [107] in
+  let st1 := LSAttrNode (LValue (VGraph 0)) [(k, LValue (VInt 1))] (ex_d 1) in
+  let st2 := LSAttrNode (LValue (VGraph 0)) [(k, LValue (VInt 2))] (ex_d 2) in
+  eval_lstmt ex_tree ex_fl0 ex_call 5 (LSPrint [Some (LCall [102] [])] (ex_d 2)) ex_store_state (polls0 None)
+    = Err (EInContext (CtxStmts [ex_d 2]) EUndefinedFunction) /\
+  exists s1 p1,
+    eval_lstmt ex_tree ex_fl0 ex_call 5 st1 (linit (fst (add_graph_node []))) (polls0 None) = Ok (tt, s1, p1) /\
+    eval_lstmt ex_tree ex_fl0 ex_call 5 st2 s1 p1 = Err (EInContext (CtxStmts [ex_d 1; ex_d 2]) EDuplicateAttribute) /\
+    key_sets st2 (KNode 0 k) /\ In (KNode 0 k, ex_d 1) (l_prev s1).
+Proof.
+  cbv zeta. split; [vm_compute; reflexivity|]. eexists; eexists. split; [vm_compute; reflexivity|].
+  split; [vm_compute; reflexivity|]. split; [left; reflexivity|left; reflexivity].
+Qed.
+
+(* (3) `set k = 1` (k undefined) on line 3 inside the `if` of line 2: in lazy mode the error cites the enclosing TOP-LEVEL
+   `if` (line 2) — strict mode cites line 3, see c20_strict_innermost_nonvacuous —; inside a scan arm it cites the arm's
+   statement (line 3) with the cause inside Context::Other *)
+Example c20_lazy_exec_enclosing_nonvacuous :
+  let x := [120] in let k := [107] in
+  let bad l := SSet (VarU k (3, 6)) (EInt 1) l in
+  let sif := SIf [([CBool ETrue (2, 3)], [bad (3, 2)], (2, 0))] (2, 0) in
+  let st := {| st_stmts := [SNode (VarU x (1, 5)) x (1, 0); sif]; st_full_stanza_idx := 0; st_full_file_idx := 0; st_start := (0, 0) |} in
+  let fl := {| f_globals := []; f_inherited := []; f_shorthands := []; f_stanzas := [st] |} in
+  let sscan := SScan (EStr [97]) [(0, [bad (3, 4)], (3, 2))] (2, 0) in
+  let st' := {| st_stmts := [sscan]; st_full_stanza_idx := 0; st_full_file_idx := 0; st_start := (0, 0) |} in
+  let fl' := {| f_globals := []; f_inherited := []; f_shorthands := []; f_stanzas := [st'] |} in
+  let m := [(0, [7])] in
+  let e := EInContext (CtxStmts [{| sc_stmt := (2, 0); sc_stanza := (0, 0); sc_node := 7 |}]) EUndefinedVariable in
+  let e' := EInContext (CtxStmts [{| sc_stmt := (3, 4); sc_stanza := (0, 0); sc_node := 7 |}]) (EInContext CtxOther EUndefinedVariable) in
+  lexec_stanza ex_tree fl config0 [[]] (@nil unit) (fun _ _ => None) ex_call 20 st m (linit []) (polls0 None) = Err e /\
+  top_cited ex_tree fl config0 [[]] (@nil unit) (fun _ _ => None) ex_call (0, 0) 7 m (st_stmts st) e /\
+  lexec_stanza ex_tree fl' config0 [[]] [tt] (fun _ _ => Some [Some (0, 1)]) ex_call 20 st' m (linit []) (polls0 None) = Err e' /\
+  arm_cited ex_tree fl' config0 [[]] [tt] (fun _ _ => Some [Some (0, 1)]) ex_call (0, 0) 7 m (flat_map arm_stmts (st_stmts st')) e'.
+Proof.
+  cbv zeta. split; [vm_compute; reflexivity|]. split.
+  - eexists _, EUndefinedVariable. split; [right; left; reflexivity|]. split; [reflexivity|]. split; [apply U_base; exact I|].
+    exists 10%nat, {| ll_match := [(0, [7])]; ll_full := 0; ll_caps := []; ll_ctx := lmk (0, 0) 7 (2, 0) |}, (linit []), (polls0 None).
+    split; [vm_compute; reflexivity|]. split; reflexivity.
+  - split; [vm_compute; reflexivity|].
+    eexists _, EUndefinedVariable. split; [left; reflexivity|]. split; [reflexivity|]. split; [apply U_base; exact I|].
+    exists 10%nat, {| ll_match := [(0, [7])]; ll_full := 0; ll_caps := []; ll_ctx := lmk (0, 0) 7 (3, 4) |}, (linit []), (polls0 None).
+    split; [vm_compute; reflexivity|]. split; reflexivity.
+Qed.
+
+(* whole run: `let x = (f)` on line 1, `print x` on line 2: the deferred print forces the thunk and the error cites
+   line 1, the statement that created the failing value, not the print *)
+Example c20_lazy_run_creator_nonvacuous :
+  let x := [120] in
+  let st := {| st_stmts := [SLet (VarU x (1, 4)) (ECall [102] []) (1, 0); SPrint [EUnscoped x (2, 6)] (2, 0)];
+               st_full_stanza_idx := 0; st_full_file_idx := 0; st_start := (0, 0) |} in
+  let fl := {| f_globals := []; f_inherited := []; f_shorthands := []; f_stanzas := [st] |} in
+  let e := EInContext (CtxStmts [ex_d 1]) EUndefinedFunction in
+  lexec_file ex_tree fl config0 [[]] (@nil unit) (fun _ _ => None) ex_call 20 [(0, [(0, [7])])] (linit []) (polls0 None) = Err e /\
+  forced ex_tree fl ex_call e.
+Proof.
+  cbv zeta. split; [vm_compute; reflexivity|]. exists ex_store_state.
+  eapply (O_thunk _ _ _ _ _ 0 (ex_d 1) EUndefinedFunction); [reflexivity| |reflexivity].
+  split; [apply U_base; exact I|]. eexists 3%nat, _, ex_store_state, (polls0 None).
+  split; [apply same_dbgs_refl|]. split; [reflexivity|]. split; [reflexivity|]. vm_compute. reflexivity.
+Qed.
+
+(* whole run, conflict (the program of c20_lazy_conflict_nonvacuous): after the execution phase the two deferred `attr`
+   statements are evaluated in order; the error is the pair [line 3; line 4]: the second statement is the cited one, the
+   first context is that of the EARLIER statement, and both set the attribute k *)
+Example c20_lazy_run_conflict_nonvacuous :
+  let x := [120] in let k := [107] in
+  let st := {| st_stmts := [SNode (VarU x (1, 2)) x (1, 0);
+                            SIf [([CBool ETrue (2, 3)], [SAttrNode (EUnscoped x (3, 7)) [Attr k (EInt 1)] (3, 2)], (2, 0))] (2, 0);
+                            SAttrNode (EUnscoped x (4, 5)) [Attr k (EInt 2)] (4, 0)];
+               st_full_stanza_idx := 0; st_full_file_idx := 0; st_start := (0, 0) |} in
+  let fl := {| f_globals := []; f_inherited := []; f_shorthands := []; f_stanzas := [st] |} in
+  let ms := [(0, [(0, [7])])] in
+  let c1 := {| sc_stmt := (3, 2); sc_stanza := (0, 0); sc_node := 7 |} in
+  let c2 := {| sc_stmt := (4, 0); sc_stanza := (0, 0); sc_node := 7 |} in
+  let e := EInContext (CtxStmts [c1; c2]) EDuplicateAttribute in
+  lexec_file ex_tree fl config0 [[]] (@nil unit) (fun _ _ => None) ex_call 50 ms (linit []) (polls0 None) = Err e /\
+  exists s1 p1, lexec_blocks ex_tree fl config0 [[]] (@nil unit) (fun _ _ => None) ex_call 50 ms (linit []) (polls0 None) = Ok (tt, s1, p1) /\
+    cites_deferred [] (l_edges s1 ++ l_attrs s1 ++ l_prints s1) e.
+Proof.
+  cbv zeta. split; [vm_compute; reflexivity|]. eexists; eexists. split; [vm_compute; reflexivity|].
+  cbn [l_edges l_attrs l_prints app].
+  eexists [_], _, []. split; [reflexivity|]. right. exists (KNode 0 [107]), {| sc_stmt := (3, 2); sc_stanza := (0, 0); sc_node := 7 |}.
+  split; [reflexivity|]. split; [left; reflexivity|]. right. eexists. split; [left; reflexivity|]. split; [reflexivity|left; reflexivity].
+Qed.
+
+(* who the "creator" is: whatever the run of statement s stores (thunk debug infos, pending scoped definitions, deferred
+   statements) was there before or carries the error context of s — statement location included, as the enclosing block
+   set it — or that context moved to a statement nested in s; for a statement without nested blocks: exactly ll_ctx le *)
+Theorem lazy_created_values_cite_statement : forall {rx : Type} t fl cfg glob (regexes : list rx) find call fuel le s s0 p0 s1 p1 d,
+  call_errors_base call ->
+  lexec_stmt t fl cfg glob regexes find call fuel le s s0 p0 = Ok (tt, s1, p1) ->
+  ctx_stored s1 d ->
+  ctx_stored s0 d \/ d = ll_ctx le \/ exists s', In s' (stmt_subs s) /\ d = ctx_update (ll_ctx le) s'.
+Proof.
+  intros rx t fl cfg glob regexes find call fuel le s s0 p0 s1 p1 d Hc.
+  exact (lexec_stmt_stores_own_ctx t fl cfg glob regexes find call Hc fuel le s s0 p0 s1 p1 d).
+Qed.
+
+(* `let x = (f)` run with the error context of line 1 stores one thunk, with exactly that context *)
+Example c20_lazy_created_nonvacuous :
+  let le := {| ll_match := [(0, [7])]; ll_full := 0; ll_caps := []; ll_ctx := ex_d 1 |} in
+  exists s1 p1,
+    lexec_stmt ex_tree ex_fl0 config0 [[]] (@nil unit) (fun _ _ => None) ex_call 10 le (SLet (VarU [120] (1, 4)) (ECall [102] []) (1, 0)) (linit []) (polls0 None)
+      = Ok (tt, s1, p1) /\
+    store_dbgs s1 = [ex_d 1] /\ ctx_stored s1 (ex_d 1) /\ ~ ctx_stored (linit []) (ex_d 1).
+Proof.
+  cbv zeta. eexists; eexists. split; [vm_compute; reflexivity|]. split; [reflexivity|]. split; [left; left; reflexivity|].
+  intros [H|[(name & ps & x & H & _)|[H|H]]]; try contradiction. discriminate.
+Qed.
+
+
+From TSG Require Import Model.ErrRender Proofs.ParseErr Proofs.ErrRender.
 
 (* ================================================================================================================
    RENDERING (last sentence of the property: "pretty rendering of the error shows the cited DSL and source lines").
